@@ -9,7 +9,7 @@ PID = "C19"
 MODULE = "MC_ExternalImport"
 TIERS = {
     "quick": dict(
-        maxlen=5, line_copies=1, dssr_copies=1, nsynth=6, others=150, main_listings=12, main_dssr=6,
+        maxlen=4, line_copies=1, dssr_copies=1, nsynth=6, others=150, main_listings=12, main_dssr=6,
         corpus=["184D.cif"],
         mc="quick", chunks=8),
     "thorough": dict(
@@ -29,6 +29,40 @@ NEGATIVE = [("dssr_asimpl", "DssrPairsExact",
 def _mc(args):
     name, expect, sc, workers = args
     return lib.mc(MODULE, f"{MODULE}_{name}.cfg", sc, expect_violation=expect, workers=workers, xmx="6g")
+
+
+def _mc_child(conn, jobs):
+    """Runs in a forked child (started before any pool is forked): all design-level model checks."""
+    try:
+        with ThreadPoolExecutor(max_workers=len(jobs)) as ex:
+            out = list(ex.map(_mc, jobs))
+        conn.send(("ok", out))
+    except BaseException as e:      # noqa: reported to the parent as a machinery failure
+        conn.send(("error", f"{type(e).__name__}: {e}"))
+    finally:
+        conn.close()
+
+
+def start_mc(tier_mc, sc):
+    """Model checks run beside the recording and trace validation; returns a function that waits for them."""
+    import multiprocessing as mp
+    ctx = mp.get_context("fork")
+    rx, tx = ctx.Pipe(duplex=False)
+    jobs = [(tier_mc, None, sc, lib.NCPU)] + [(name, inv, sc, 2) for name, inv, _ in NEGATIVE]
+    proc = ctx.Process(target=_mc_child, args=(tx, jobs), daemon=True)
+    proc.start()
+    tx.close()
+
+    def wait():
+        try:
+            kind, val = rx.recv()
+        except EOFError:
+            raise lib.MachineryError("model-check child process died without a result")
+        proc.join()
+        if kind != "ok":
+            raise lib.MachineryError("model check failed to run: " + str(val))
+        return val[0], val[1:]
+    return wait
 
 
 def _nontrivial(c):
@@ -60,6 +94,7 @@ def run(tier):
         t0 = time.time()
     with lib.Scratch(PID.lower()) as sc:
         xi.set_scratch(sc.dir)
+        wait_mc = start_mc(t["mc"], sc)        # design-level model checks (+ negative controls) run in the background
         # ---- code -> spec, part 1: the exhaustive label sweep through the real unify_classification
         jobs = xi.sweep_jobs(t["maxlen"])
         blocks = lib.pmap(xi.sweep_block, jobs, chunksize=4)
@@ -88,14 +123,9 @@ def run(tier):
         recorded = lib.pmap(xi.record, listings + dssr)
         mark("record")
         allc = label_cases + recorded
-        # ---- design-level model checks (+ negative controls) run beside the trace validation
-        with ThreadPoolExecutor(max_workers=3) as ex:
-            fut_mc = ex.submit(_mc, (t["mc"], None, sc, lib.NCPU))
-            fut_neg = [ex.submit(_mc, (name, inv, sc, 2)) for name, inv, _ in NEGATIVE]
-            res = lib.trace_validate("Trace_ExternalImport", "Trace_ExternalImport.cfg", allc, sc, chunks=t["chunks"])
-            mark("trace_validate")
-            r = fut_mc.result()
-            negs = [f.result() for f in fut_neg]
+        res = lib.trace_validate("Trace_ExternalImport", "Trace_ExternalImport.cfg", allc, sc, chunks=t["chunks"])
+        mark("trace_validate")
+        r, negs = wait_mc()
         mark("mc_wait")
         cov_phases = phases
         rep.add_mc(r, "adapter algorithm model (unify_classification, parse_fr3d_output, parse_dssr_output) over the "
